@@ -1036,7 +1036,25 @@ int32_t delta_from_arg_vals(const rtosc_arg_val_t* llhsarg,
      * i.e. there's an "n" s. t. lhsarg + n*delta = rhsarg
      */
     int res;
-    if(rhsarg)
+    if(rhsarg && strchr("chi", delta->type))
+    {
+        // the distance between two integers can exceed the range of their
+        // own type (e.g. "-2000000000 -1200000000 ... 1200000000"), so
+        // count the steps in unsigned 64 bit arithmetic
+        int is_h = delta->type == 'h';
+        int64_t l = is_h ? lhsarg->val.h : lhsarg->val.i;
+        int64_t r = is_h ? rhsarg->val.h : rhsarg->val.i;
+        int64_t d = is_h ? delta->val.h  : delta->val.i;
+        if(r != l && (r > l) != (d > 0))
+            return -1;
+        uint64_t width = (d > 0) ? (uint64_t)r - (uint64_t)l
+                                 : (uint64_t)l - (uint64_t)r;
+        uint64_t step  = (d > 0) ? (uint64_t)d : (uint64_t)0 - (uint64_t)d;
+        if(width % step || width / step >= INT32_MAX)
+            return -1;
+        res = (int)(width / step);
+    }
+    else if(rhsarg)
     {
         rtosc_arg_val_t width, div, width2;
         rtosc_arg_val_sub(rhsarg, lhsarg, &width);
